@@ -39,9 +39,12 @@ def model_value(m, v, depth=0):
     from .symexec import MList, MSet, PyTuple, Val
     from .sym import TBool, TInt, TNone, TOpaque, TOption, TReal, TSeq, TStr, TTuple
 
-    def conv(ty, t):
+    def conv(ty, t, d=0):
         if ty is TNone:
             return None
+        if d > 3:
+            return '...'
+
         e = m.eval(t, model_completion=True)
         if ty is TInt:
             return e.as_long()
@@ -61,17 +64,17 @@ def model_value(m, v, depth=0):
         if isinstance(ty, TOpaque):
             nm = str(e)
             return {'opaque': ty.name, 'id': nm,
-                    'attrs': {a: conv(aty, ty.attr_fn(a)(e)) for a, aty in ty.attrs.items()}}
+                    'attrs': {a: conv(aty, ty.attr_fn(a)(e), d + 1) for a, aty in ty.attrs.items()}}
         if isinstance(ty, TTuple):
-            return tuple(conv(ity, ty.get(e, i)) for i, ity in enumerate(ty.items))
+            return tuple(conv(ity, ty.get(e, i), d + 1) for i, ity in enumerate(ty.items))
         if isinstance(ty, TOption):
             if z3.is_true(m.eval(ty.is_none(e), model_completion=True)):
                 return None
-            return conv(ty.inner, ty.val(e))
+            return conv(ty.inner, ty.val(e), d + 1)
         if isinstance(ty, TSeq):
             n = m.eval(ty.f_len(e), model_completion=True).as_long()
             n = max(0, min(n, 12))
-            items = [conv(ty.elem, ty.f_at(e, z3.IntVal(i))) for i in range(n)]
+            items = [conv(ty.elem, ty.f_at(e, z3.IntVal(i)), d + 1) for i in range(n)]
             return tuple(items) if ty.kind == 'tuple' else items
         return str(e)
 
